@@ -1323,6 +1323,11 @@ def doc_oracle(doc):
 
 # --------------------------------------------------------------------------------------------------
 
+def finding_columns_margin_top():
+    from harness import pm_col_corr
+    return pm_col_corr.replay_witness('columns_margin_top_ignored')
+
+
 class C05(PropCheck):
     id = 'C05'
     extractors = ()
@@ -1776,7 +1781,8 @@ class C05(PropCheck):
                 'table-row-group-negative-height': finding_table_row_group,
                 'float-explicit-width-ignores-min-max': finding_float_minmax,
                 'float-shrink-to-fit-ignores-own-extras': finding_float_extras,
-                'empty-fragment-below-page-bottom': finding_empty_fragment}
+                'empty-fragment-below-page-bottom': finding_empty_fragment,
+                'columns-margin-top-ignored': finding_columns_margin_top}
 
     def replay(self, data):
         inp = data.get('input', {})
